@@ -37,7 +37,7 @@ Inductive op :=
 (* iterators *)
 | ODrain (v i : nat) (bs be : bound) | OSplice (v i : nat) (bs be : bound) (sc : script)
 | ODrainFilter (v i : nat) (sc : script) | OIntoIter (v i : nat)
-| ONext (i : nat) | ONextBack (i : nat) | OHint (i : nat) | OAsSlice (i : nat)
+| ONext (i : nat) | ONextBack (i : nat) | ONth (i : nat) (k : Z) | OHint (i : nat) | OAsSlice (i : nat)
 | OCloneIter (i j : nat) | ODropIter (i : nat) | OForgetIter (i : nat)
 | OUnknown.
 
@@ -126,6 +126,34 @@ Section Run.
     match o with
     | Some e => hand_out cfg e ;;; ret (ROpt (Some e))
     | None => ret (ROpt None)
+    end.
+
+  (* one front step of iterator i, without handing the element out *)
+  Definition iter_front (i : nat) : M (option elem) :=
+    it <- iter_get i ;;
+    match it with
+    | IDrain d => r <- drain_next cfg d ;; iter_set i (Some (IDrain (snd r))) ;;; ret (fst r)
+    | IInto t => r <- into_next cfg t ;; iter_set i (Some (IInto (snd r))) ;;; ret (fst r)
+    | IFilter f =>
+        r <- filter_next cfg (filter_fuel f) f ;;
+        iter_set i (Some (IFilter (snd r))) ;;;
+        match fst r with
+        | FYield e => ret (Some e)
+        | FDone => ret None
+        | FPanic => panic
+        end
+    end.
+
+  (* Iterator::nth, the provided method (none of the four iterators may override it observably):
+     k elements are taken and dropped, the next one is returned *)
+  Fixpoint iter_nth (k : nat) (i : nat) : M (option elem) :=
+    match k with
+    | O => iter_front i
+    | S k => r <- iter_front i ;;
+             match r with
+             | Some e => drop_elem cfg e ;;; iter_nth k i
+             | None => ret None
+             end
     end.
 
   Definition step (o : op) : M (outtag * retv) :=
@@ -262,6 +290,10 @@ Section Run.
               | FPanic => panic
               end
           end
+        else SKIP
+    | ONth i k =>
+        if iter_exists s i && (0 <=? k) && (k <=? 64) then
+          with_ret (r <- iter_nth (Z.to_nat k) i ;; yield r)
         else SKIP
     | ONextBack i =>
         if iter_exists s i then
